@@ -26,7 +26,9 @@ func (e *Engine) intrinsic(fr *Frame, st *State, name string, fn *ssa.Function, 
 		bv := T{fmt.Sprintf("q%d", e.nfresh), sort}
 		e.inlineTerms++
 		e.noOblig++
-		body := e.callStatic(fr, st.clone(), fv.fn, fv.binds, []Val{bv}, pos)
+		qs := st.clone()
+		qs.pc = tTrue // the quantified formula is used under the caller's path condition
+		body := e.callStatic(fr, qs, fv.fn, fv.binds, []Val{bv}, pos)
 		e.noOblig--
 		e.inlineTerms--
 		bt := body.(T)
@@ -52,13 +54,29 @@ func (e *Engine) intrinsic(fr *Frame, st *State, name string, fn *ssa.Function, 
 		if name == "GvcForall" && sort == sInt {
 			// the same statement over the absolute element index, so that instantiation triggers
 			// on reads of the backing store match whatever the slice offsets are (see DESIGN §2.4)
-			vars := shiftedVariants(bt.S, bv.S, func() string { e.nfresh++; return fmt.Sprintf("k%d", e.nfresh) })
-			if len(vars) > 0 {
-				parts := []string{res}
-				for _, v := range vars {
-					parts = append(parts, fmt.Sprintf("(forall ((%s Int)) %s)", v.Var, v.Body))
+			fresh := func() string { e.nfresh++; return fmt.Sprintf("k%d", e.nfresh) }
+			bodies := []string{bt.S}
+			// nested quantifiers: also start from the bodies whose inner quantifier is already shifted
+			for inner, shifted := range e.altOnly {
+				if strings.Contains(bt.S, inner) {
+					for _, sh := range shifted {
+						bodies = append(bodies, strings.ReplaceAll(bt.S, inner, sh))
+					}
 				}
-				res = "(and " + strings.Join(parts, " ") + ")"
+			}
+			var only []string
+			for bi, b := range bodies {
+				for _, v := range shiftedVariants(b, bv.S, fresh) {
+					only = append(only, fmt.Sprintf("(forall ((%s Int)) %s)", v.Var, v.Body))
+				}
+				if bi > 0 {
+					only = append(only, fmt.Sprintf("(forall ((%s Int)) %s)", bv.S, b))
+				}
+			}
+			if len(only) > 0 {
+				// the enriched form is used when the formula is assumed, the plain one when it is a goal
+				e.altForm[res] = "(and " + res + " " + strings.Join(only, " ") + ")"
+				e.altOnly[res] = only
 			}
 		}
 		return T{res, sBool}
@@ -72,7 +90,7 @@ func (e *Engine) intrinsic(fr *Frame, st *State, name string, fn *ssa.Function, 
 			e.unsupported("old() used where no pre-state exists (%s)", fr.fn.Name())
 		}
 		s := old.clone()
-		s.pc = st.pc
+		s.pc = tTrue
 		// cells captured by the closure belong to the spec frame: copy them over
 		for k, v := range st.cells {
 			if _, ok := s.cells[k]; !ok {
@@ -810,7 +828,9 @@ func (e *Engine) quantInt(st *State, q string, body func(s *State, i T) T) T {
 	bv := T{fmt.Sprintf("q%d", e.nfresh), sInt}
 	e.inlineTerms++
 	e.noOblig++
-	b := body(st.clone(), bv)
+	qs := st.clone()
+	qs.pc = tTrue
+	b := body(qs, bv)
 	e.noOblig--
 	e.inlineTerms--
 	res := fmt.Sprintf("(%s ((%s Int)) %s)", q, bv.S, b.S)
@@ -820,11 +840,11 @@ func (e *Engine) quantInt(st *State, q string, body func(s *State, i T) T) T {
 		for _, v := range vars {
 			parts = append(parts, fmt.Sprintf("(%s ((%s Int)) %s)", q, v.Var, v.Body))
 		}
-		op := "and"
 		if q == "exists" {
-			op = "or"
+			res = "(or " + strings.Join(parts, " ") + ")"
+		} else {
+			e.altForm[res] = "(and " + strings.Join(parts, " ") + ")"
 		}
-		res = "(" + op + " " + strings.Join(parts, " ") + ")"
 	}
 	return T{res, sBool}
 }
